@@ -230,6 +230,9 @@ func refPolicy(pub any, optIn bool) (ok bool, class string) {
 		if p.P.Cmp(q.P) == 0 && p.N.Cmp(q.N) == 0 && p.B.Cmp(q.B) == 0 && p.Gx.Cmp(q.Gx) == 0 && p.Gy.Cmp(q.Gy) == 0 && p.BitSize == 256 {
 			return true, "ecdsa-p256"
 		}
+		if p.BitSize == 256 {
+			return optIn, "ecdsa-other-256bit-curve"
+		}
 		return optIn, "ecdsa-other-curve"
 	}
 	return false, "undefined-key-type"
@@ -241,7 +244,7 @@ func refPolicy(pub any, optIn bool) (ok bool, class string) {
 var kindWeights = []struct {
 	kind string
 	w    int
-}{{"p256", 7}, {"rsa2048", 5}, {"p384", 3}, {"p521", 2}, {"p224", 2}, {"rsa1024", 3}, {"rsa3072", 2}, {"dsa1024", 3}, {"dsa2048", 2}, {"ed25519", 2}}
+}{{"p256", 7}, {"rsa2048", 5}, {"p384", 3}, {"p521", 2}, {"p224", 2}, {"rsa1024", 3}, {"rsa3072", 2}, {"dsa1024", 3}, {"dsa2048", 2}, {"ed25519", 2}, {"rsa2050", 2}, {"rsa2052", 1}, {"rsa2062", 1}, {"rsa1030", 1}, {"bp256t1", 1}}
 
 var allKinds = func() []string {
 	var out []string
@@ -267,12 +270,12 @@ func pick(t *rapid.T, label string, n int) int {
 func pickStr(t *rapid.T, label string, l []string) string { return l[pick(t, label, len(l))] }
 
 func genKey(t *rapid.T, label string) string {
-	return keys.Pick(pickStr(t, label+".kind", allKinds), pick(t, label+".i", 16)).Name
+	return pickKey(pickStr(t, label+".kind", allKinds), pick(t, label+".i", 16)).Name
 }
 
 // genKeyOf draws a key among the given kinds.
 func genKeyOf(t *rapid.T, label string, kinds ...string) string {
-	return keys.Pick(pickStr(t, label+".kind", kinds), pick(t, label+".i", 16)).Name
+	return pickKey(pickStr(t, label+".kind", kinds), pick(t, label+".i", 16)).Name
 }
 
 // nativeSig is the signature code that belongs to the key's type (0 for Ed25519: none exists).
